@@ -26,6 +26,14 @@ import numbers
 DS = ("attr", ("self",), "_h5dataset")
 
 
+def type_check_fn(ctx):
+    """the value-type check of Property: by name, else the private helper both value mutators call"""
+    from .common import private_helper
+    return private_helper(ctx, "Property", "_check_new_value_types",
+                          [("Property", "values", "setters"), ("Property", "extend_values", "methods")],
+                          pick=lambda h: len(h.node.args.args) == 2)
+
+
 def run(M, rep, tier, only=None):
     ctx = Ctx(M, coarse=False)
     ctx.cfg.compose = False
@@ -74,7 +82,7 @@ def run(M, rep, tier, only=None):
                       what="%d refusing paths, none after a write" % nref)
 
     # ---------------------------------------------------------------- R2
-    f = ctx.member("Property", "_check_new_value_types")
+    f = type_check_fn(ctx)
     if f is None:
         rep.bad(R2, "Property._check_new_value_types", "required mechanism not found")
     else:
@@ -103,7 +111,7 @@ def run(M, rep, tier, only=None):
                   site=f.file + ":%d" % f.node.lineno, detail=describe_path(bad[0]) if bad else None)
 
     # ---- R2b: the type check as a decision table (two unrolled elements), evaluated on value lists
-    f = ctx.member("Property", "_check_new_value_types")
+    f = type_check_fn(ctx)
     if f is not None:
         import numpy as _np_absent  # noqa: F401  (only to make clear nothing of numpy is needed here)
     if f is not None:
